@@ -448,6 +448,7 @@ type provOut struct {
 	EndAt     []time.Duration
 	ExtractEr []string
 	Cancelled bool
+	CancelledAtEnd bool // the consumers were done before Run returned: the harness cancelled the context as the engine does
 	CancelAt  time.Duration
 	LastGotAt time.Duration
 	Sim       simrt.Result
@@ -533,6 +534,12 @@ func runProvider(r *R, pr provRun, report bool) *provOut {
 		}
 		for i := 0; i < pr.Consumers; i++ {
 			<-consDone
+		}
+		// every consumer has seen the end of ammo: like the engine once all instances have finished,
+		// cancel the provider's context and wait for Run
+		if !out.RunDone {
+			out.CancelledAtEnd = true
+			cancel()
 		}
 		<-runDone
 	})
